@@ -1,6 +1,8 @@
 package main
 
 import (
+	"runtime"
+	"strconv"
 	"fmt"
 	"os"
 	"sort"
@@ -23,8 +25,21 @@ type outcome struct {
 	script  string
 }
 
-var solverSem = make(chan struct{}, 10) // bounds concurrently running solver races
-var caseSem = make(chan struct{}, 12)
+// Concurrency follows the processors actually available (affinity included): each race runs
+// three to five solver processes, and oversubscribing a small machine turns slow into "unknown".
+var solverSem = make(chan struct{}, scaled(10)) // bounds concurrently running solver races
+var caseSem = make(chan struct{}, scaled(12))
+
+func scaled(at16 int) int {
+	n := at16 * runtime.NumCPU() / 16
+	if n < 2 {
+		n = 2
+	}
+	if n > at16 {
+		n = at16
+	}
+	return n
+}
 
 // runQuery races the back ends on one script.
 func runQuery(L *Loaded, asserts []*smt.Term, gets []*smt.Term, timeout, seed int) outcome {
@@ -43,13 +58,23 @@ func runQuery(L *Loaded, asserts []*smt.Term, gets []*smt.Term, timeout, seed in
 	}
 	sc := X.Script(asserts, gets, "ALL", true)
 	abs := X.ScriptAbstract(asserts)
+	var light *smt.Script
+	if len(sc.Text) > 60000 && os.Getenv("GOVC_NOHINTS") == "" {
+		mx := 120
+		if v, err := strconv.Atoi(os.Getenv("GOVC_LIGHT")); err == nil && v > 0 {
+			mx = v
+		}
+		if sm := smt.SmallAsserts(asserts, mx); len(sm) < len(asserts) {
+			light = X.Script(sm, nil, "ALL", true)
+		}
+	}
 	scriptMu.Unlock()
 	if d := os.Getenv("GOVC_KEEPWEAK"); d != "" && weak != nil {
 		os.MkdirAll(d, 0o755)
 		os.WriteFile(fmt.Sprintf("%s/weak%d.smt2", d, time.Now().UnixNano()), []byte(weak.Text), 0o644)
 	}
 	solverSem <- struct{}{}
-	res, err := smt.SolveWithAbstraction(sc, abs, weak, len(gets), timeout, seed, os.Getenv("GOVC_SOLVER"))
+	res, err := smt.SolveWithAbstraction(sc, abs, weak, light, len(gets), timeout, seed, os.Getenv("GOVC_SOLVER"))
 	<-solverSem
 	if err != nil {
 		return outcome{verdict: smt.Unknown, raw: err.Error(), solver: "error"}
